@@ -37,7 +37,8 @@ TRUSTED = [
     "tie T2: the executable models of C01/C02/C03/C05/C08/C09 (Coo, Getitem, Elemwise, Reduce, Join, Gcxs) are the sparse oracle; their "
     "sparse-safe evaluation strategies (Model/Big.lean) are proved equal to the originals (Lemmas/Big.lean) and compared through the driver",
     "bytes and seconds are runtime facts of this machine: RLIMIT_AS 6 GiB, tracemalloc (Python/NumPy allocations; numba NRT allocations are not traced)",
-    "operations without a Lean model (GCXS-format operations, products, var/std) are compared with a coordinate-dictionary reference in Python",
+    "operations without a Lean model (GCXS-format operations, products, var/std, reductions of non-integer data, mixed sparse-dense operations) are compared with a "
+    "coordinate-dictionary reference in Python; the dense operands of mixed operations are generated from a formula evaluated position by position on both sides",
 ]
 
 
@@ -527,6 +528,217 @@ def broadcast_all_cases(rng, quick):
     return cs
 
 
+# ---------------------------------------------------------------------------------------------------
+# reductions over every data dtype kind x every reduction x every proper axis subset (3-d and 4-d) x dtype= x keepdims
+# ---------------------------------------------------------------------------------------------------
+
+# four huge axes; 4.5e17 logical elements, so that size * itemsize stays below 2**63 for 16-byte values too (see S4BIG)
+S4 = (30000, 20000, 50000, 15000)
+# 1.2e18 elements: addressable (linear index < 2**63) but size * 8 > 2**63 — the region of F-c16-dense-operand-view-limit
+S4BIG = (30000, 20000, 50000, 40000)
+KINDS = ["float64", "float32", "int64", "bool", "complex128"]
+REDUCTIONS = ["sum", "prod", "max", "min", "any", "all", "mean", "nansum"]
+WITH_DTYPE = {"sum", "prod", "mean", "nansum"}
+
+
+def kind_value(v, kind):
+    if kind == "bool":
+        return True
+    if kind.startswith("complex"):
+        return complex(v, v)
+    if kind.startswith("float"):
+        return float(v)
+    return int(v)
+
+
+def reduce_ref(x, kind, name, axes, kd):
+    """the reduction of a zero-filled array whose lanes are longer than its number of stored elements (every lane holds a fill value):
+    -> {"shape", "coords", "data"} with the values as Python numbers; entries equal to the result's fill value (0) are not stored"""
+    shape = x["shape"]
+    nd = len(shape)
+    kept = [a for a in range(nd) if a not in axes]
+    L = 1
+    for a in axes:
+        L *= shape[a]
+    lanes = {}
+    for c, v in zip(x["coords"], x["data"]):
+        lanes.setdefault(tuple(c[a] for a in kept), []).append(kind_value(v, kind))
+    out = {}
+    for key, vals in lanes.items():
+        assert len(vals) < L
+        if name in ("sum", "nansum"):
+            r = sum(vals[1:], vals[0]) if not isinstance(vals[0], bool) else sum(int(v) for v in vals)
+        elif name == "prod":
+            r = 0
+        elif name == "max":
+            r = max(max(vals), 0)
+        elif name == "min":
+            r = min(min(vals), 0)
+        elif name == "any":
+            r = int(any(v != 0 for v in vals))
+        elif name == "all":
+            r = 0
+        elif name == "mean":
+            tot = sum(int(v) for v in vals) if isinstance(vals[0], bool) else sum(vals[1:], vals[0])
+            r = tot / L
+        else:
+            raise ValueError(name)
+        if r != 0:
+            if kd:
+                full = [0] * nd
+                for a, k in zip(kept, key):
+                    full[a] = k
+                key = tuple(full)
+            out[key] = r
+    rshape = [1 if a in axes else shape[a] for a in range(nd)] if kd else [shape[a] for a in kept]
+    keys = sorted(out)
+    return {"shape": rshape, "coords": [list(k) for k in keys], "data": [out[k] for k in keys]}
+
+
+def as_complex(v):
+    return complex(*v) if isinstance(v, list) else complex(v)
+
+
+def typed_differs(got, want, tol):
+    """None when the typed result `got` of the worker equals the reference `want` (coordinates exactly, values within `tol` relative)"""
+    if not isinstance(got, dict) or "coords" not in got:
+        return f"result is not a sparse array: {short(got, 160)}"
+    if got["shape"] != want["shape"]:
+        return f"shape {got['shape']} instead of {want['shape']}"
+    if abs(as_complex(got["fill"])) != 0:
+        return f"fill value {got['fill']} instead of 0"
+    # a stored -0.0 (NumPy's own result where a negative product meets the zero fill) is numerically the fill value: not compared
+    keep = [k for k, v in enumerate(got["data"]) if as_complex(v) != 0]
+    got = dict(got, coords=[got["coords"][k] for k in keep], data=[got["data"][k] for k in keep])
+    if got["coords"] != want["coords"]:
+        return f"stored coordinates differ: {len(got['coords'])} stored, reference {len(want['coords'])}: {short(got['coords'], 120)} vs {short(want['coords'], 120)}"
+    for c, a, b in zip(got["coords"], got["data"], want["data"]):
+        a, b = as_complex(a), as_complex(b)
+        if abs(a - b) > tol * max(abs(b), 1e-300):
+            return f"value at {c}: {a} instead of {b}"
+    return None
+
+
+def planted(rng, shape, n, signed):
+    """n stored elements, several of them sharing lanes along every axis"""
+    x = rand_coo(rng, shape, n, lo=-3 if signed else 1, hi=5)
+    pts = {tuple(c) for c in x["coords"]}
+    base = x["coords"][: max(4, n // 8)]
+    for b in base:
+        for ax in range(len(shape)):
+            q = list(b)
+            q[ax] = int(rng.integers(0, shape[ax]))
+            pts.add(tuple(q))
+    pts = sorted(pts)
+    vals = []
+    for _ in pts:
+        v = int(rng.integers(-3 if signed else 1, 6))
+        vals.append(v if v else 2)
+    return {"shape": list(shape), "coords": [list(q) for q in pts], "data": vals, "fill": 0}
+
+
+def reduce_sweep(rng, quick):
+    """-> list of batches {"w": worker case, "items": [(name, axes, dtype argument, keepdims)], "refs": […], "kind", "tol"}"""
+    import itertools as it
+    batches = []
+    for shape in (S3, S4):
+        nd = len(shape)
+        subsets = [list(t) for k in range(1, nd) for t in it.combinations(range(nd), k)]
+        for kind in KINDS:
+            x = planted(rng, shape, 40, signed=kind not in ("bool",))
+            if kind == "bool":
+                x["data"] = [1] * len(x["data"])
+            x["dtype"] = kind
+            names = [r for r in REDUCTIONS if not (kind.startswith("complex") and r in ("max", "min"))]
+            items = []
+            for name in names:
+                if quick:
+                    # keeping one, two and (4-d) three huge axes, always once without dtype=; the rest drawn at random
+                    must = [[0], [0, 1]] if nd == 3 else [[1], [0, 3], [0, 1, 2]]
+                    chosen = must + [subsets[int(k)] for k in rng.choice(len(subsets), size=1)]
+                else:
+                    chosen = subsets
+                for j, axes in enumerate(chosen):
+                    dts = [None]
+                    if name in WITH_DTYPE and (not quick or rng.random() < 0.5):
+                        dts.append("complex128" if kind.startswith("complex") else "float64")
+                    for dt in dts:
+                        for kd in ((bool((j + len(name)) % 2),) if quick else (False, True)):
+                            ax = [a - nd if rng.random() < 0.25 else a for a in axes]
+                            items.append([name, ax, dt, kd])
+            refs = [reduce_ref(x, kind, name, [a % nd for a in ax], kd) for name, ax, dt, kd in items]
+            batches.append({"w": {"op": "reduce_batch", "x": x, "items": items}, "items": items, "refs": refs, "kind": kind,
+                            "tol": 1e-5 if kind == "float32" else 1e-9, "size": cells(x) + lsum(shape)})
+    # beyond 2**63 / 8 elements: sum / max / mean complete; nansum replaces NaN through where(isnan(x), 0, x), a mixed operation (known finding)
+    x = planted(rng, S4BIG, 30, signed=True)
+    x["dtype"] = "float64"
+    items = [["sum", [0], None, False], ["max", [1, 2], None, True], ["mean", [0, 3], None, False], ["nansum", [0], None, False]]
+    batches.append({"w": {"op": "reduce_batch", "x": x, "items": items}, "items": items, "refs": [reduce_ref(x, "float64", n_, a_, k_) for n_, a_, _, k_ in items],
+                    "kind": "float64", "tol": 1e-9, "size": cells(x) + lsum(S4BIG)})
+    return batches
+
+
+# ---------------------------------------------------------------------------------------------------
+# mixed operations: a huge sparse array and a small dense ndarray of every broadcastable shape
+# ---------------------------------------------------------------------------------------------------
+
+def dense_at(g, xshape, c):
+    """the value the generated dense operand (c16_worker.dense_gen) contributes at coordinate c of the broadcast shape"""
+    dshape = g["shape"]
+    off = len(xshape) - len(dshape)
+    k = 0
+    for j, d in enumerate(dshape):
+        k = k * d + (c[off + j] if d != 1 else 0)
+    return g.get("sign", 1) * ((k * 7 + 3) % g["m"] + 1)
+
+
+MIXED_FUNCS = {
+    # name: (python function of (stored value, dense value), sign of the dense operand, orders, sparse values signed?)
+    "multiply": (lambda v, d: v * d, 1, ("xd", "dx"), True),
+    "divide": (lambda v, d: v / d, 1, ("xd",), True),
+    "minimum": (lambda v, d: min(v, d), 1, ("xd", "dx"), False),       # dense > 0: min(0, d) = 0
+    "maximum": (lambda v, d: max(v, d), -1, ("xd", "dx"), True),       # dense < 0: max(0, d) = 0
+    "bitwise_and": (lambda v, d: v & d, 1, ("xd", "dx"), False),
+}
+
+
+def mixed_cases(rng, quick):
+    """-> list of (family, worker case, reference, size, cost request)"""
+    cs = []
+    G0 = ["gcxs", [0]]
+    for xshape in ((S3,) if quick else (S3, S2, ODD3)):
+        nd = len(xshape)
+        dshapes = [[xshape[-1]], [1] * (nd - 1) + [xshape[-1]], [xshape[-2], 1], [xshape[0]] + [1] * (nd - 1), [], [1], [1] * nd]
+        if nd == 3:
+            dshapes += [[1, xshape[1], 1], [1, xshape[2]]]
+        xs = {True: planted(rng, xshape, 120, signed=True), False: planted(rng, xshape, 120, signed=False)}
+        for dshape in dshapes:
+            for func, (f, sign, orders, signed) in MIXED_FUNCS.items():
+                x = xs[signed]
+                g = {"shape": dshape, "m": int(rng.integers(3, 9)), "sign": sign, "dtype": "int64"}
+                D = 1
+                for d in dshape:
+                    D *= d
+                ref = {}
+                for c, v in zip(x["coords"], x["data"]):
+                    r = f(v, dense_at(g, xshape, c))
+                    if r != 0:
+                        ref[tuple(c)] = r
+                keys = sorted(ref)
+                want = {"shape": list(xshape), "coords": [list(k) for k in keys], "data": [ref[k] for k in keys]}
+                for fname, fmt in (("coo", None), ("gcxs", G0), ("dok", "dok")):
+                    for order in orders:
+                        # the quick tier always runs the vector along the last axis for every function, format and order; the rest is sampled
+                        if quick and dshape != dshapes[0] and rng.random() < 0.8:
+                            continue
+                        w = {"op": "mixed", "x": x, "dense": g, "func": func, "order": order, "typed": True}
+                        if fmt is not None:
+                            w["format"] = fmt
+                        fam = f"mixed:{fname}:{func}:{order}:{'x'.join(map(str, dshape)) or '0d'}:{nd}d"
+                        cs.append((fam, w, want, cells(x) * 2 + lsum(xshape) + D, ["cost", "elemwise_mixed", list(xshape), len(x["data"]), len(keys), D]))
+    return cs
+
+
 def time_budget(size):
     """seconds allowed for one (warmed) call on an input+output of `size` cells + Σ shape: linear, generous"""
     return 2.0 + 1.0e-5 * size
@@ -589,7 +801,8 @@ def run(ctx):
     cases = mk_cases(rng, quick)
     extra = unmodelled_cases(rng, quick)
     # lanes: 0..3 modelled families, 4 = GCXS/DOK-format and products, 5 = the (10^6)^2 sparse @ sparse products (short deadline),
-    # 6 = odd extents (everything that flattens) and operands broadcast along every axis
+    # 6 = odd extents (everything that flattens) and operands broadcast along every axis;
+    # 7.. = see below
     lanes = [[] for _ in range(7)]
     where = []
     for i, c in enumerate(cases):
@@ -605,6 +818,20 @@ def run(ctx):
             w["want_coo"] = True
         lanes[ln].append((w, deadline))
         where_x.append((ln, len(lanes[ln]) - 1))
+    # lanes 7, 8: the reduction sweep (batches alternate); lanes 9, 10: mixed sparse-dense operations
+    sweep = reduce_sweep(rng, quick)
+    lanes += [[], [], [], []]
+    where_s = []
+    for k, b in enumerate(sweep):
+        ln = 7 + k % 2
+        lanes[ln].append((b["w"], 600))
+        where_s.append((ln, len(lanes[ln]) - 1))
+    mixed = mixed_cases(rng, quick)
+    where_m = []
+    for k, (fam, w, want, size, creq) in enumerate(mixed):
+        ln = 9 + k % 2
+        lanes[ln].append((dict(w, warm=True), 120))
+        where_m.append((ln, len(lanes[ln]) - 1))
     t0 = time.time()
     res = run_lanes(lanes)
     ctx.notes["worker_wall_s"] = round(time.time() - t0, 1)
@@ -737,6 +964,85 @@ def run(ctx):
             msg = f"tracemalloc peak {a.get('peak')} bytes exceeds {C_MAX}*8*size (size {size} = stored cells in/out + Σ shape)"
             ctx.fail("C", fam, desc, msg, finding=findings.classify(PID, fam, desc, msg))
 
+    # ---- the reduction sweep ---------------------------------------------------------------------------
+    sweep_stats = {"items": 0, "by_kind": {}, "by_reduction": {}, "max_peak": 0, "max_secs": 0.0}
+    for b, (ln, j) in zip(sweep, where_s):
+        a = res[ln][j]
+        shape_tag = "x".join(str(d) for d in b["w"]["x"]["shape"])
+        if "ok" not in a["out"]:
+            desc = {"op": "reduce_batch", "x": b["w"]["x"], "items": b["items"][:3], "family": f"reduce-sweep:{b['kind']}:{shape_tag}"}
+            msg = f"the batch of {len(b['items'])} reductions did not complete under RLIMIT_AS={LIMIT >> 30} GiB / 600s: {short(a['out'], 200)}"
+            ctx.fail("C", f"reduce-sweep:{b['kind']}", desc, msg, finding=findings.classify(PID, "reduce-sweep", desc, msg))
+            continue
+        for item, want, r in zip(b["items"], b["refs"], a["out"]["ok"]["items"]):
+            name, ax, dt, kd = item
+            fam = f"reduce-sweep:{b['kind']}:{name}"
+            desc = {"op": "reduce_batch", "x": b["w"]["x"], "items": [item], "family": f"{fam}:axis={ax}:dtype={dt}:keepdims={kd}:{shape_tag}"}
+            ctx.case(f"C:reduce-sweep:{b['kind']}:{name}", {"shape": b["w"]["x"]["shape"], "nnz": len(b["w"]["x"]["data"]), "item": item, "x0": b["w"]["x"]["coords"][0]})
+            sweep_stats["items"] += 1
+            sweep_stats["by_kind"][b["kind"]] = sweep_stats["by_kind"].get(b["kind"], 0) + 1
+            sweep_stats["by_reduction"][name] = sweep_stats["by_reduction"].get(name, 0) + 1
+            out = r["out"]
+            if "err" in out:
+                msg = (f"{name}(axis={tuple(ax)}, dtype={dt}, keepdims={kd}) of a {b['kind']} array of shape {tuple(b['w']['x']['shape'])} with {len(b['w']['x']['data'])} "
+                       f"stored elements raised {out.get('type')}: {out.get('msg', '')[:160]}")
+                ctx.fail("C", fam, desc, msg, finding=findings.classify(PID, fam, desc, msg))
+                continue
+            diff = typed_differs(out["ok"], want, b["tol"])
+            if diff:
+                msg = f"{name}(axis={tuple(ax)}, dtype={dt}, keepdims={kd}) of a {b['kind']} array differs from the coordinate-dictionary reference: {diff}"
+                ctx.fail("C", fam, desc, msg, finding=findings.classify(PID, fam, desc, msg))
+                continue
+            sweep_stats["max_peak"] = max(sweep_stats["max_peak"], r.get("peak", 0))
+            sweep_stats["max_secs"] = max(sweep_stats["max_secs"], r.get("secs", 0.0))
+            if r.get("peak", 0) > C_MAX * 8 * b["size"] + SLACK:
+                msg = f"tracemalloc peak {r.get('peak')} bytes exceeds {C_MAX}*8*size (size {b['size']} = stored cells + Σ shape)"
+                ctx.fail("C", fam, desc, msg, finding=findings.classify(PID, fam, desc, msg))
+            if r.get("secs", 0) > time_budget(b["size"]):
+                msg = f"took {r.get('secs')}s, budget {time_budget(b['size']):.1f}s for size {b['size']}"
+                ctx.fail("C", fam, desc, msg, finding=findings.classify(PID, fam, desc, msg))
+    ctx.notes["reduce_sweep"] = sweep_stats
+
+    # ---- mixed sparse-dense operations -----------------------------------------------------------------
+    mcost = ctx.driver.run([creq for _, _, _, _, creq in mixed])
+    mixed_stats = {"cases": len(mixed), "max_peak_over_8_opCost": 0.0}
+    for (fam, w, want, size, creq), (ln, j), co in zip(mixed, where_m, mcost):
+        a = res[ln][j]
+        out = a["out"]
+        desc = small_case(w)
+        desc["family"] = fam
+        ctx.case(f"C:mixed:{w['func']}", {k: v for k, v in desc.items() if k != "x"} | {"x0": w["x"]["coords"][0], "format": w.get("format")})
+        if out.get("err") in ("timeout", "crash", "memory"):
+            msg = f"did not complete under RLIMIT_AS={LIMIT >> 30} GiB / 120s: {short(out, 200)}"
+            ctx.fail("C", fam, desc, msg, finding=findings.classify(PID, fam, desc, msg))
+            continue
+        if "err" in out:
+            msg = f"raised {out.get('type')}: {out.get('msg', '')[:160]}"
+            ctx.fail("C", fam, desc, msg, finding=findings.classify(PID, fam, desc, msg))
+            continue
+        diff = typed_differs(out["ok"], want, 1e-12)
+        if diff:
+            msg = f"result differs from the coordinate-dictionary reference: {diff}"
+            ctx.fail("C", fam, desc, msg, finding=findings.classify(PID, fam, desc, msg))
+            continue
+        c_ = co.get("ok")
+        if not c_:
+            ctx.fail("A", "cost:mixed", {"family": fam}, f"driver rejected the cost request: {co}")
+            continue
+        if c_["cost"] > c_["K"] * c_["size"]:
+            ctx.fail("A", "cost:mixed", {"family": fam}, f"opCost {c_['cost']} exceeds K*size = {c_['K']}*{c_['size']} (contradicts elemwise_mixed_cost_bound)")
+        # COO operands: the peak against the cost model; GCXS / DOK operands convert first (indptr: Σ shape), so the size measure is used
+        bound = C_MAX * 8 * (c_["cost"] if "format" not in w else size) + SLACK
+        if "format" not in w:
+            mixed_stats["max_peak_over_8_opCost"] = max(mixed_stats["max_peak_over_8_opCost"], round(a.get("peak", 0) / (8.0 * max(c_["cost"], 1)), 2))
+        if a.get("peak", 0) > bound:
+            msg = f"tracemalloc peak {a.get('peak')} bytes exceeds {bound} (opCost {c_['cost']} cells = stored cells + the dense operand, size {size})"
+            ctx.fail("C", fam, desc, msg, finding=findings.classify(PID, fam, desc, msg))
+        if a.get("secs", 0) > time_budget(size):
+            msg = f"took {a.get('secs')}s, budget {time_budget(size):.1f}s for size {size}"
+            ctx.fail("C", fam, desc, msg, finding=findings.classify(PID, fam, desc, msg))
+    ctx.notes["mixed"] = mixed_stats
+
     # cost of the product kernels (Cost.dotCsrCsr on the sizes of each 2-d @ 2-d case) against opCost_sparse_bound, and their time
     pk = [(fam, w, ref) for fam, w, ref, _, _, _ in extra if w.get("op") == "product" and len(w["a"]["shape"]) == 2 and len(w["b"]["shape"]) == 2]
     cr = ctx.driver.run([["cost", "dot_csr_csr", [w["a"]["shape"][0], w["b"]["shape"][1]], len(ref[1]), matmul_work(w["a"], w["b"])] for _, w, ref in pk])
@@ -758,6 +1064,10 @@ def run(ctx):
                        "3..2000 stored elements, run in a subprocess under RLIMIT_AS 6 GiB with a deadline; result compared with the Lean model on "
                        "coordinates/order/data/indptr; tracemalloc peak <= c*8*opCost + 256 KiB and time <= 2 s + 10 µs*size; GCXS(single compressed axis)/DOK "
                        "operations, products of 1-d/2-d operands and var/std against the model or a coordinate-dictionary reference; "
+                       "reduction sweep: float64/float32/int64/bool/complex128 data x sum/prod/max/min/any/all/mean/nansum x proper axis subsets of (10^6)^3 and "
+                       "(30000,20000,50000,15000) (quick: keeping one, two, three huge axes + a random subset; thorough: every subset) x dtype= x keepdims, against a "
+                       "coordinate-dictionary reference; mixed operations multiply/divide/minimum/maximum/bitwise_and between a huge COO/GCXS/DOK array and a generated "
+                       "dense ndarray of every broadcastable shape (vector along the last axis, column shapes, 0-d, (1,)*k), both orders, peak against Cost.elemwiseMixed; "
                        "all cases non-trivial (stored elements, results mostly non-empty); distinct by content hash")
 
 
